@@ -18,6 +18,8 @@ package dns
 //@   fresh
 //@ iface RR.len [C16]
 //@   opt no-safety
+//@   ensures nonneg: ret0 >= 0
+//@   loop * invariant l >= 0
 //@   modifies MS.mapLstringJstruct__@compression
 //@ iface RR.String [C16]
 //@   opt no-safety
@@ -85,6 +87,7 @@ package dns
 //@   pure
 //@ func Len [C16 C08]
 //@   opt no-safety
+//@   ensures nonneg: ret0 >= 0
 //@   pure
 //@ func IsDuplicate [C16 C20]
 //@   opt no-safety
